@@ -332,9 +332,19 @@ func Repr(v Value) string {
 // ---- environments ----
 
 type scope struct {
-	names []string
-	vals  []Value
-	up    *scope
+	names  []string
+	vals   []Value
+	up     *scope
+	isWith bool // the object environment of `with (wo)`
+}
+
+func (s *scope) inWith() bool {
+	for c := s; c != nil; c = c.up {
+		if c.isWith {
+			return true
+		}
+	}
+	return false
 }
 
 func (s *scope) declare(name string, v Value) {
@@ -895,10 +905,16 @@ func (in *Interp) eval(fr *frame, sc *scope, e *N) Value {
 		return m.Call(in.self, []Value{v})
 	case WAsg:
 		// inside with (wo): wx resolves to the object environment record of wo (wx is always present)
+		if !sc.inWith() {
+			unsupported("wx = v outside with")
+		}
 		v := in.eval(fr, sc, e.X[0])
 		in.wo.set("wx", v)
 		return v
 	case WGet:
+		if !sc.inWith() {
+			panic(&abrupt{cThrow, &ErrV{"ReferenceError"}})
+		}
 		return in.wo.get("wx")
 	case GInst:
 		return in.newLibGen(e.I, fr.gen == nil)
@@ -1132,7 +1148,7 @@ func (in *Interp) exec(fr *frame, sc *scope, s *N) comp {
 		}
 		return c
 	case With:
-		return in.execList(fr, &scope{up: sc}, s.A)
+		return in.execList(fr, &scope{up: sc, isWith: true}, s.A)
 	case Sw:
 		v, c := in.evalC(fr, sc, s.X[0])
 		if c.t != cNormal {
